@@ -18,13 +18,15 @@ pub fn check(tier: Tier) -> Check {
         Part::new("C03/eof", json!({"max_len": tier.pick(9, 12)}), 0, tier.pick(50, 600)),
         Part::new("C03/long", json!({"big": tier == Tier::Thorough, "narrow": tier == Tier::Quick}), 0, tier.pick(50, 600)),
         Part::new("C03/long", json!({"huge": true, "pairs": tier == Tier::Thorough}), 0, tier.pick(50, 300)),
+        // the stream object lives across connect() -> run(): bytes behind the CONNACK in the same read
+        Part::new("C03/handover", json!({}), 0, 60),
         Part::new("C03/aligned", json!({"shifts": tier.pick(48, 80), "wide": tier.pick(1100, 2200), "all_cuts": tier == Tier::Thorough}), 0, tier.pick(50, 900)),
     ];
     Check {
         also_rel: true,
         property: "C03",
         level: "model_checking",
-        rule: "(S1) every 2- and 3-packet sequence over {PINGRESP, short PUBACK, SUBACK, inbound PUBLISH QoS 0/1 with a small payload} up to the stated total length x all 2^(n-1) compositions of the byte stream into reads x {all chunks immediately available, Pending between chunks}; (S1e) every 1-2-packet stream up to a small total length cut short after every prefix by end-of-stream / read error, under every composition of the prefix; (S2) PUBLISH packets of 126..131, 510..516, 1022..1028, 1534..1540, 2046..2052, 4096, 16383..16390 bytes (quick: 127..129, 511..514, 1023..1026, 1536, 2047..2050, 16384..16386; thorough also 70000; a 2097160-byte packet (four-byte remaining length) with every single cut (thorough: every pair of cuts) near the interesting offsets) preceded by 0-2 small packets x {every single cut, every pair of cuts within +-3 of packet boundaries and multiples of 512, every uniform chunk size 1..=40 and 511..513, 1023..1025} x both reader modes; (S3) a stream of seven packets (a lead-in PUBLISH whose size takes every value in a window of 48 (thorough: 80) consecutive sizes - and, for the deliveries in one read or in chunks of >= 255 bytes, in a window of 1100 (thorough: 2200) -, then PUBLISH packets of about 700, 200, 118, 20, 30 and 620 bytes), so that every later packet boundary - and with it the start of a fixed header and of a multi-byte remaining length - falls on every alignment against the 512-byte read step and the 1024-byte allocation, delivered in one read, under every single cut near packet boundaries and multiples of 256 (thorough: every single cut) and in uniform chunks of 1, 2, 3, 5, 7, 64, 255, 256, 257, 511, 512, 513, 1019, 1024 bytes, both reader modes; run in the overflow-checked and the wrapping-arithmetic build; oracle: reference framing at every quiescent point, no unread visible bytes at quiescence, no end-of-stream before the transport's, no zero-length read; non-trivial = a packet was split across reads".into(),
+        rule: "(S1) every 2- and 3-packet sequence over {PINGRESP, short PUBACK, SUBACK, inbound PUBLISH QoS 0/1 with a small payload} up to the stated total length x all 2^(n-1) compositions of the byte stream into reads x {all chunks immediately available, Pending between chunks}; (S1e) every 1-2-packet stream up to a small total length cut short after every prefix by end-of-stream / read error, under every composition of the prefix; (S2) PUBLISH packets of 126..131, 510..516, 1022..1028, 1534..1540, 2046..2052, 4096, 16383..16390 bytes (quick: 127..129, 511..514, 1023..1026, 1536, 2047..2050, 16384..16386; thorough also 70000; a 2097160-byte packet (four-byte remaining length) with every single cut (thorough: every pair of cuts) near the interesting offsets) preceded by 0-2 small packets x {every single cut, every pair of cuts within +-3 of packet boundaries and multiples of 512, every uniform chunk size 1..=40 and 511..513, 1023..1025} x both reader modes; (S3) a stream of seven packets (a lead-in PUBLISH whose size takes every value in a window of 48 (thorough: 80) consecutive sizes - and, for the deliveries in one read or in chunks of >= 255 bytes, in a window of 1100 (thorough: 2200) -, then PUBLISH packets of about 700, 200, 118, 20, 30 and 620 bytes), so that every later packet boundary - and with it the start of a fixed header and of a multi-byte remaining length - falls on every alignment against the 512-byte read step and the 1024-byte allocation, delivered in one read, under every single cut near packet boundaries and multiples of 256 (thorough: every single cut) and in uniform chunks of 1, 2, 3, 5, 7, 64, 255, 256, 257, 511, 512, 513, 1019, 1024 bytes, both reader modes; (S4) hand-over from connect() to run(): the read that carries the CONNACK also carries the first k bytes (every k near both ends, every 97th in between) of six following packet sequences, the rest arrives once run() is served; run in the overflow-checked and the wrapping-arithmetic build; oracle: reference framing at every quiescent point, no unread visible bytes at quiescence, no end-of-stream before the transport's, no zero-length read; non-trivial = a packet was split across reads".into(),
         assumptions: vec!["packets are well-formed (malformed input is C04)".into()],
         parts,
     }
@@ -103,9 +105,78 @@ fn small_packets(sub_id: u32, op_pub: usize, op_sub: usize, sys: &Sys) -> Vec<SP
     v
 }
 
+/// The read that brings the CONNACK (or the AUTH challenge) also brings the first k bytes of what
+/// follows; the rest arrives once run() is being served. Nothing may be lost at the hand-over.
+fn handover(name: String, params: Value) -> Scenario {
+    Box::new(move |chz, ex| {
+        let mut sys = Sys::new("C03", &name, chz);
+        sys.params = params.clone();
+        let tails: Vec<Vec<SPacket>> = vec![
+            vec![inbound(1, false, 7, &[], "early")],
+            vec![inbound(2, false, 300, &[], "early2"), pubrel_in(300)],
+            vec![SPacket::Pingresp, inbound(1, false, 8, &[], "x")],
+            vec![inbound(0, false, 0, &[], "q0"), SPacket::Disconnect { reason: 0x8b, props: vec![], form: 1 }],
+            vec![SPacket::Disconnect { reason: 0, props: vec![], form: 0 }],
+            vec![SPacket::Publish { dup: false, qos: 1, retain: false, topic: "in/t".into(), pid: Some(9), props: vec![], payload: vec![0x5a; 700] }],
+        ];
+        let tail = tails[chz.choose(tails.len())].clone();
+        let connack = SPacket::Connack { session_present: false, reason: 0, props: vec![Prop::u16(P_RECEIVE_MAXIMUM, 5)] };
+        let mut bytes = connack.encode();
+        let c = bytes.len();
+        let mut ends = vec![];
+        for p in &tail {
+            bytes.extend(p.encode());
+            ends.push(bytes.len());
+        }
+        // k bytes of the tail ride along with the CONNACK
+        let rest = bytes.len() - c;
+        let ks: Vec<usize> = (0..=rest).filter(|k| *k <= 12 || *k + 4 >= rest || *k % 97 == 0).collect();
+        let k = ks[chz.choose(ks.len())];
+        let spec = ConnectSpec::default();
+        sys.events.push(format!("Connect; CONNACK + {} of {} following bytes in the same read", k, rest));
+        sys.classes.push("Connect".into());
+        sys.m.connect(spec.clone());
+        sys.w.cmd(crate::world::CtxCmd::Connect(spec));
+        sys.sync();
+        if sys.dead {
+            return sys.report(ex, &[]);
+        }
+        sys.m.deliver(connack);
+        sys.w.deliver(bytes[..c + k].to_vec());
+        sys.sync();
+        if sys.dead {
+            return sys.report(ex, &[]);
+        }
+        // whole packets that have already arrived wait inside the stream object until run() is served
+        let mut fed = 0;
+        while fed < tail.len() && ends[fed] <= c + k {
+            sys.m.deliver(tail[fed].clone());
+            fed += 1;
+        }
+        sys.start_run();
+        if !sys.dead && c + k < bytes.len() {
+            sys.events.push("Deliver(the remaining bytes)".into());
+            sys.classes.push("DeliverRest".into());
+            sys.w.deliver(bytes[c + k..].to_vec());
+            while fed < tail.len() {
+                sys.m.deliver(tail[fed].clone());
+                fed += 1;
+            }
+            sys.sync();
+        }
+        sys.apply(Ev::Start(OpSpec::Ping));
+        sys.finish();
+        sys.m.hits.push("packet-split");
+        sys.report(ex, &["packet-split"]);
+    })
+}
+
 pub fn scenario(name: &str, params: &Value) -> Scenario {
     let params = params.clone();
     let name = name.to_string();
+    if name == "C03/handover" {
+        return handover(name, params);
+    }
     if name == "C03/short" {
         let max_len = params["max_len"].as_u64().unwrap_or(17) as usize;
         return Box::new(move |chz, ex| {
